@@ -440,3 +440,40 @@ package util
 //@   ensures t != nil && typeis(coreType(t), *types.Named) ==> result == defName(t)
 //@   ensures !(t != nil && typeis(coreType(t), *types.Named)) ==> result == ""
 //@   assigns nothing
+
+// ---- ImportMap: the imports of one file, looked up by qualifier (C05) -------------------------------------------------
+//@ func ImportMap.Add
+//@   props C05 C10
+//@   requires m != nil
+//@   nilable spec, pkg
+//@   assigns *m
+//@   ensures (spec == nil || spec.Path == nil) ==> *m == old(*m)
+//@   ensures spec != nil && spec.Path != nil ==> len(*m) == old(len(*m)) + 1 && (forall k int :: 0 <= k && k < old(len(*m)) ==> (*m)[k] == old(*m)[k])
+//@   ensures spec != nil && spec.Path != nil ==> (*m)[old(len(*m))].FullPath == strings.Trim(spec.Path.Value, "\"") && (*m)[old(len(*m))].Alias == (spec.Name != nil ? spec.Name.Name : "") && (*m)[old(len(*m))].PackageName == (pkg != nil ? pkg.Name() : "")
+
+// rank of the rule by which import e is found under qualifier s (0: none)
+//@ macro func pathTail(full string, s string) bool = len(full) >= len(s) + 1 && full[len(full)-len(s):] == s && full[len(full)-len(s)-1] == '/'
+//@ macro func impRank(e Import, s string) int = (e.Alias != "" && e.Alias == s) ? 1 : ((e.PackageName != "" && e.PackageName == s) ? 2 : (e.FullPath == s ? 3 : (pathTail(e.FullPath, s) ? 4 : 0)))
+//@ func matchesPathComponentWithSlash
+//@   props C05 C10
+//@   ensures result == pathTail(fullPath, shortName)
+//@   assigns nothing
+// Find: nil exactly when no import is found by any rule; otherwise a copy of the first import of the best rank.
+//@ func ImportMap.Find
+//@   props C05 C10
+//@   requires m != nil
+//@   fresh
+//@   assigns nothing
+//@   ensures result == nil <==> (shortName == "" || (forall k int :: 0 <= k && k < len(*m) ==> impRank((*m)[k], shortName) == 0))
+//@   ensures result != nil ==> (exists k int :: 0 <= k && k < len(*m) && *result == (*m)[k] && impRank((*m)[k], shortName) != 0 && (forall j int :: 0 <= j && j < len(*m) ==> impRank((*m)[j], shortName) == 0 || impRank((*m)[j], shortName) > impRank((*m)[k], shortName) || (impRank((*m)[j], shortName) == impRank((*m)[k], shortName) && j >= k)))
+//@   loop 1 invariant forall k int :: 0 <= k && k < $i ==> impRank((*m)[k], shortName) != 1
+//@   loop 2 invariant forall k int :: 0 <= k && k < len(*m) ==> impRank((*m)[k], shortName) != 1
+//@   loop 2 invariant forall k int :: 0 <= k && k < $i ==> impRank((*m)[k], shortName) != 2
+//@   loop 3 invariant forall k int :: 0 <= k && k < len(*m) ==> impRank((*m)[k], shortName) != 1 && impRank((*m)[k], shortName) != 2
+//@   loop 3 invariant forall k int :: 0 <= k && k < $i ==> impRank((*m)[k], shortName) != 3
+//@   loop 4 invariant forall k int :: 0 <= k && k < len(*m) ==> impRank((*m)[k], shortName) != 1 && impRank((*m)[k], shortName) != 2 && impRank((*m)[k], shortName) != 3
+//@   loop 4 invariant forall k int :: 0 <= k && k < $i ==> impRank((*m)[k], shortName) != 4
+//@   loop 1 frame
+//@   loop 2 frame
+//@   loop 3 frame
+//@   loop 4 frame
